@@ -9,6 +9,7 @@ Conventions: Fock masks have mode `j` = bit `j` (`OFV.Spec`); matrix indices of
 executes against the real code.
 -/
 import OFV.Proofs.C10Det
+import OFV.Proofs.C10Sz
 
 namespace OFV.C10
 open OFV.Model OFV.Model.C10 OFV.Spec OFV.Spec.C10
@@ -49,6 +50,48 @@ theorem number_indices_eigen (tol : Rat) (n k : Nat) (htol : GQ.isSmall tol 1 = 
     have := congrArg GQ.re h
     simp only [natMul, GQ.one_re, Rat.mul_one] at this
     exact_mod_cast this
+
+/-! ## jw_sz_indices (fixed particle number)
+
+`occAt n I k` is the occupation of mode `k` read from the big-endian matrix index `I`
+(bit `n - 1 - k`); `MapsOK n sites up down`: the index maps go into the register, are injective
+and have disjoint ranges (true for the defaults, `sz_maps_default`). -/
+
+/-- `jw_sz_indices(sz, n, n_electrons, up_index, down_index)`, when it returns, enumerates each
+exactly once the indices `I < 2^n` that occupy only up / down modes, with `numUp` up particles
+and `numDown` down particles, where `numUp + numDown = n_electrons` and
+`numUp - numDown = 2 sz` — i.e. the basis states of that `S_z` and particle number. -/
+theorem sz_indices_spec_fixed (sz : Rat) (n ne : Nat) (up down : Nat → Nat) (l : List Nat)
+    (h : jwSzIndices sz n (some ne) up down = .ok l) (hm : MapsOK n (n / 2) up down) :
+    ∃ numUp numDown : Nat, numUp + numDown = ne ∧ ((numUp : Int) - numDown = (2 * sz).num) ∧ (2 * sz).den = 1 ∧
+      l.Nodup ∧ ∀ I, I ∈ l ↔
+        I < 2 ^ n ∧
+        (∀ k, k < n → occAt n I k = true → ∃ s, s < n / 2 ∧ (k = up s ∨ k = down s)) ∧
+        ((List.range (n / 2)).filter fun s => occAt n I (up s)).length = numUp ∧
+        ((List.range (n / 2)).filter fun s => occAt n I (down s)).length = numDown := by
+  unfold jwSzIndices at h
+  split at h
+  · cases h
+  · split at h
+    · cases h
+    · next hden =>
+      simp only at h
+      split at h
+      · cases h
+      · next hcond =>
+        simp only [Except.ok.injEq] at h
+        subst h
+        simp only [Bool.or_eq_true, bne_iff_ne, ne_eq, decide_eq_true_eq, not_or, Decidable.not_not,
+          Int.not_lt] at hcond
+        refine ⟨(((ne : Int) + (2 * sz).num) / 2).toNat, ne - (((ne : Int) + (2 * sz).num) / 2).toNat,
+          by omega, by omega, by simpa using hden, nodup_szPairs_comb hm _ _, fun I => mem_szPairs_comb hm _ _ I⟩
+
+/-- the default maps `up_index(i) = 2 i`, `down_index(i) = 2 i + 1` are admissible on `2 · sites`
+qubits and cover every mode -/
+theorem sz_maps_default (sites : Nat) :
+    MapsOK (2 * sites) sites upIndex downIndex ∧
+      ∀ k, k < 2 * sites → ∃ s, s < sites ∧ (k = upIndex s ∨ k = downIndex s) :=
+  ⟨mapsOK_default sites, cover_default sites⟩
 
 /-! ## jw_configuration_state / jw_hartree_fock_state: one mode-to-bit convention -/
 
@@ -93,6 +136,7 @@ theorem iterate_basis_reference_first (ref : Det) (level : Nat) (spin : Bool) :
 /-! ## non-vacuity -/
 
 example : jwNumberIndices 2 3 = [3, 5, 6] := by decide
+example : jwSzIndices (1 / 2) 4 (some 1) upIndex downIndex = .ok [8, 2] := by decide +kernel
 example : (configuration_state_index [0, 2] 3 (by decide) (by decide)).1 = (by decide : configIndex [0, 2] 3 < 2 ^ 3) := rfl
 example : configIndex [0, 2] 3 = 5 ∧ maskOfIndex 3 5 = 5 ∧ configIndex [0] 3 = 4 ∧ maskOfIndex 3 4 = 1 := by decide
 example : GQ.isSmall Generated.eqTolerance 1 = false := by decide +kernel
